@@ -237,10 +237,14 @@ Fixpoint denote (p : pt) (rho : env) {struct p} : option pulse :=
           end
       end
   | Const d vals =>
-      match eval rho d, opt_all (map (fun kv => option_map (fun q => (fst kv, q)) (eval rho (snd kv))) vals) with
-      | Some dd, Some vs => if Qle_bool dd 0 then Some []
-                            else Some [(dd, map (fun kv => (fst kv, FSegs [(dd, [snd kv])] (snd kv))) vs)]
-      | _, _ => None
+      match eval rho d with
+      | Some dd =>
+          if Qle_bool dd 0 then Some []      (* the values of an empty constant pulse are never evaluated *)
+          else match opt_all (map (fun kv => option_map (fun q => (fst kv, q)) (eval rho (snd kv))) vals) with
+               | Some vs => Some [(dd, map (fun kv => (fst kv, FSegs [(dd, [snd kv])] (snd kv))) vs)]
+               | None => None
+               end
+      | None => None
       end
   | Func c d coef =>
       match eval rho d, opt_all (map (eval rho) coef) with
